@@ -16,10 +16,19 @@ TStep(e) ==
     [] e.a = "Complete" -> EvComplete(e.t)
     [] e.a = "RS"      -> EvRungSizes(e.sz)
     [] e.a = "Crash"   -> EvCrash
+    [] e.a = "SS"      -> EvSearcherState(e.obs, e.pend)
 TNext == /\ l <= Len(Traces[tid].ev) /\ TStep(Traces[tid].ev[l])
          /\ l' = l + 1 /\ tid' = tid
+         /\ IF Traces[tid].ev[l].a = "SS" THEN TRUE
+            ELSE /\ UNCHANGED <<pobs, ppend, lur>>
+                 /\ fresh' = FALSE       \* judged only right after the searcher state was read back
+\* C14 state predicates, reported as flags as well
+StateFlags == (IF ObsLevelsMatchPolicy THEN {} ELSE {"obs_levels"})
+              \cup (IF PendingOnlyLive THEN {} ELSE {"pending_not_running"})
+              \cup (IF PendingNotObserved THEN {} ELSE {"pending_observed"})
 TSpec == TInit /\ [][TNext]_tvars
 Report ==
   /\ PrintT(<<"@@P@@", tid, l>>)
+  /\ (StateFlags # {}) => PrintT(<<"@@SFL@@", tid, l, StateFlags>>)
   /\ (l = Len(Traces[tid].ev) + 1) => PrintT(<<"@@FLG@@", tid, flags>>)
 =============================================================================
